@@ -1,15 +1,18 @@
 import ComposeVerif.Model.C11Defaults
+import ComposeVerif.Model.Paths
 /-!
 # C11 — model of `loader.Normalize`  (loader/normalize.go)
 
-`Normalize` = `normalizeNetworks` ; per-service loop ; `setNameFromKey`.  Every unchecked type
-assertion of the Go code is a conjunct of one of the three *shape* predicates below; when one
-fails the outcome is `panic <function>` (the functions run one after the other, and all
-assertions of one function report the same site, so the outcome does not depend on Go's map
-order).  When all hold the result is the pure function `normalizePure`.
+`Normalize` = `normalizeNetworks` ; per-service loop ; `setNameFromKey`.  Every type assertion of the Go code
+is a conjunct of one of the three *shape* predicates below.  They used to be unchecked (a failing one was a
+panic); since the /repo repairs `fix: Normalize / normalizeNetworks / setNameFromKey report … as an error instead
+of panicking` a failing one makes the function return an error (the model names the function in the class; the
+wire only compares `err`, because which of several errors is reported depends on Go's map order).  When all hold
+the result is the pure function `normalizePure`.  `Normalize` never panics any more (`normalize_never_panics`).
 
 `clean` stands for Go's `path.Clean` (standard library).  The driver instantiates it with
-`pathClean` below (tied by its own correspondence op); the theorems only use that it is idempotent.
+`pathClean` below (tied by its own correspondence op); the general theorems only use that it is idempotent,
+and `pathClean_idempotent` discharges that for the instance.
 -/
 namespace CV.C11
 open CV CV.Val
@@ -50,31 +53,13 @@ def volFromTarget (s : String) : String :=
   | a :: _ => String.ofList a
   | [] => s
 
-/-! ## `path.Clean` (lexical) -/
+/-! ## `path.Clean` (lexical)
 
-def cleanComps (rooted : Bool) : List (List Char) → List (List Char) → List (List Char)
-  | [], st => st.reverse
-  | c :: r, st =>
-    if c = [] || c = ['.'] then cleanComps rooted r st
-    else if c = ['.', '.'] then
-      match st with
-      | t :: st' => if t = ['.', '.'] then cleanComps rooted r (c :: st) else cleanComps rooted r st'
-      | [] => if rooted then cleanComps rooted r [] else cleanComps rooted r [c]
-    else cleanComps rooted r (c :: st)
+`path.Clean` and Unix `filepath.Clean` are the same lexical function; the model is C12's
+`CV.Paths.clean` (Model/Paths.lean, `clean_idem` in Lemmas/PathsClean.lean), tied to `path.Clean`
+by this property's own correspondence op `c11.clean`. -/
 
-def joinSlash : List (List Char) → List Char
-  | [] => []
-  | [a] => a
-  | a :: r => a ++ '/' :: joinSlash r
-
-def pathClean (s : String) : String :=
-  match s.toList with
-  | [] => "."
-  | c :: _ =>
-    let rooted := c = '/'
-    let body := joinSlash (cleanComps rooted (splitChar '/' s.toList) [])
-    if rooted then String.ofList ('/' :: body)
-    else if body = [] then "." else String.ofList body
+def pathClean (s : String) : String := String.ofList (CV.Paths.clean s.toList)
 
 /-! ## `resolve` (build args / environment against the project environment) -/
 
@@ -233,7 +218,8 @@ def containerPrefix : String := "container:"
 def linkDeps (links : List Val) : List (String × Val) :=
   links.map fun l => (linkTarget (strOf l), depEntry true)
 
-/-- the dependency a `service:<name>` namespace reference stands for -/
+/-- the dependency a `service:<name>` namespace reference stands for (`ref, _ := n.(string)`: a value that
+is not a string — e.g. the `null` of an empty `pid:` — reads as the empty string and stands for none) -/
 def nsDep (s : KVs) (ns : String) : Option (String × Val) :=
   match lookup ns s with
   | some (.str ref) => if hasPrefix servicePrefix ref then some (dropPrefix servicePrefix ref, depEntry true) else none
@@ -308,12 +294,6 @@ def shapeVolume : Val → Bool
     | _ => false
   | _ => false
 
-def shapeNamespace (s : KVs) (ns : String) : Bool :=
-  match lookup ns s with
-  | none => true
-  | some (.str _) => true
-  | some _ => false
-
 def shapeService : Val → Bool
   | .map s =>
     (match lookup "build" s with
@@ -328,7 +308,6 @@ def shapeService : Val → Bool
      | none => true
      | some (.seq l) => l.all isStr
      | some _ => false) &&
-    namespaces.all (shapeNamespace s) &&
     (match lookup "volumes" s with
      | none => true
      | some (.seq l) => l.all shapeVolume
@@ -347,11 +326,14 @@ def shapeServices (d : KVs) : Bool :=
 
 /-! ## `setNameFromKey` -/
 
-/-- `strconv.ParseBool(fmt.Sprint(x))` without the error -/
+/-- `isTrue` (loader/normalize.go): a boolean is itself; a string (interpolation skipped: not cast yet) is read with the
+    YAML 1.1 spellings `toBoolean` converts later; anything else as `strconv.ParseBool(fmt.Sprint(x))` without the error -/
 def isTrue (v : Val) : Bool :=
   match v with
   | .seq _ => false
   | .map _ => false
+  | .bool b => b
+  | .str s => ["true", "y", "yes", "on"].contains (String.ofList (s.toList.map Char.toLower))
   | v => ["1", "t", "T", "TRUE", "true", "True"].contains (fmtV v)
 
 def resourceNames : List String := ["networks", "volumes", "configs", "secrets"]
@@ -397,9 +379,9 @@ def normalizePure (clean : String → String) (env : Env) (d : KVs) : KVs :=
   setNames (normServices clean env (normNetworks d))
 
 def normalize (clean : String → String) (env : Env) (d : KVs) : Out KVs :=
-  if !shapeNN d then .panic "loader.normalizeNetworks"
-  else if !shapeServices d then .panic "loader.Normalize"
-  else if !shapeNames d then .panic "loader.setNameFromKey"
+  if !shapeNN d then .err "normalizeNetworks"
+  else if !shapeServices d then .err "Normalize"
+  else if !shapeNames d then .err "setNameFromKey"
   else .ok (normalizePure clean env d)
 
 end CV.C11
